@@ -353,6 +353,72 @@ def states_close(a, b, case):
     return None
 
 
+# ---------------------------------------------------------------- pipeline stage (real contact phase + update)
+def pipeline_scenarios(tier, seed):
+    """(name, mesh builder, l_min, iterations, threads).  The shipped three-cell tissue is the case in which the
+    shipped contact phase used to hand one-sided couplings to the update."""
+    sc = [("cell_triplet", "cell_triplet.vtk", "7.5e-7", 2, 1)]
+    if tier == "thorough":
+        sc.append(("cell_triplet/4 threads", "cell_triplet.vtk", "7.5e-7", 6, 4))
+        r = Rng(seed).fork("c03/pipeline")
+        for k in range(3):
+            sc.append(("two spheres %d" % k, ("spheres", [r.uniform(0.96, 1.04), r.uniform(-0.3, 0.3), r.uniform(-0.3, 0.3)]), "0.12", 12, 1 + 3 * (k % 2)))
+    return sc
+
+
+def pipeline_stage(V, tier, seed, stats, only=None):
+    import scenarios as SC
+    try:
+        exe, _ = vlib.build_repo.build_harness(os.path.join(vlib.VERIF, "harness", "h_coupling.cpp"), "h_coupling")
+    except RuntimeError as e:
+        V.fail_tie("correspondence", "pipeline harness does not build: %s" % str(e)[-400:])
+        return
+    import subprocess
+    st = stats.setdefault("pipeline", {"scenarios": 0, "iterations": 0, "coupled_nodes": 0, "live_nodes": 0,
+                                       "one_sided": 0, "never_integrated": 0, "per_scenario": []})
+    for name, mesh, lmin, iters, threads in (only or pipeline_scenarios(tier, seed)):
+        with SC.Workdir() as wd:
+            if isinstance(mesh, tuple):
+                d = mesh[1]
+                a = SC.icosphere(2, 1.0, (0.0, 0.0, 0.0), egg=0.1)
+                b = SC.icosphere(2, 1.0, (2.0 * d[0], d[1], d[2]), egg=0.1)
+                path = os.path.join(wd, "two.vtk")
+                SC.write_vtk(path, [(a[0], a[1], 0), (b[0], b[1], 0)])
+                meshname = path
+            else:
+                meshname = mesh
+            par = SC.make_params(wd, meshname, lmin, {}, SC.DETERMINISTIC)
+            r = subprocess.run([exe, par, str(iters), str(threads)], capture_output=True, text=True, env=vlib.ENV)
+            inp = {"stage": "pipeline", "scenario": name, "mesh": mesh if isinstance(mesh, str) else {"two_spheres_offset": mesh[1]},
+                   "l_min": lmin, "iterations": iters, "threads": threads}
+            if r.returncode != 0:
+                V.fail_input("pipeline scenario %s: the real solver ended abnormally (rc=%s): %s" % (name, r.returncode, r.stderr[-500:]), inp)
+                continue
+            st["scenarios"] += 1
+            ps = {"scenario": name, "threads": threads, "iterations": 0, "coupled": 0, "one_sided": 0, "never_integrated": 0}
+            rows = r.stdout.splitlines()
+            for i, ln in enumerate(rows):
+                w = ln.split()
+                if not w or w[0] != "I":
+                    continue
+                live, coupled, onesided, unreset = int(w[3]), int(w[5]), int(w[7]), int(w[9])
+                st["iterations"] += 1; st["live_nodes"] += live; st["coupled_nodes"] += coupled
+                ps["iterations"] += 1; ps["coupled"] += coupled
+                detail = [x for x in rows[i + 1:i + 17] if x[:2] in ("O ", "U ")]
+                if unreset and not ps["never_integrated"]:
+                    V.fail_input("pipeline %s, iteration %s: %d live node(s) of non-static cells were not integrated by the position update "
+                                 "(force accumulator not reset), e.g. %s" % (name, w[1], unreset, next((x for x in detail if x[0] == "U"), "")),
+                                 dict(inp, iteration=int(w[1]), kind="never-integrated", detail=detail))
+                if onesided and not ps["one_sided"]:
+                    V.fail_input("pipeline %s, iteration %s: the contact phase handed %d one-sided coupling(s) to the position update "
+                                 "(a names b, b names another node: a is moved twice or not at all), e.g. %s"
+                                 % (name, w[1], onesided, next((x for x in detail if x[0] == "O"), "")),
+                                 dict(inp, iteration=int(w[1]), kind="one-sided-coupling", detail=detail))
+                ps["one_sided"] += onesided; ps["never_integrated"] += unreset
+                st["one_sided"] += onesided; st["never_integrated"] += unreset
+            st["per_scenario"].append(ps)
+
+
 def run(ctx):
     tier, seed = ctx["tier"], ctx["seed"]
     t0 = time.time()
@@ -447,6 +513,7 @@ def run(ctx):
                         if pc["disagreements"] <= 2:
                             V.fail_tie("correspondence", "CM=%d DM=%d model and implementation differ: %s" % (cm, dm, d), line=lines[i])
         stats["per_config"]["%d%d" % (cm, dm)] = pc
+    pipeline_stage(V, tier, seed, stats)
     rcode, nviol = V.finish()
     cov = {
         "obligations": proof["obligations"], "discharged": proof["discharged"],
@@ -467,6 +534,11 @@ def run(ctx):
         "model_vs_impl_bit_identical": stats["bit_identical"], "model_vs_impl_disagreements": stats["disagreements"],
         "oracle_failures": stats["oracle_failures"], "per_config": stats["per_config"],
         "repo_objects_rebuilt": rebuilt_total, "samples": samples,
+        "pipeline": stats.get("pipeline", {}),
+        "pipeline_rule": "harness/h_coupling.cpp steps the REAL solver (default build: node-node coupling, overdamped) on the shipped "
+                         "three-cell tissue (thorough: also with 4 threads and on generated pairs of touching epithelial cells) and "
+                         "checks after every iteration that every coupling is mutual and that no live node of a non-static cell keeps "
+                         "a non-zero force, i.e. that the states the update meets satisfy the hypothesis Mutual of the pair theorems",
     }
     vlib.write_evidence(PID, tier, "proof", cov, [
         "exact-arithmetic reading of the update (rounding is covered only by the bit-level comparison with the Float model)",
@@ -484,6 +556,22 @@ def replay(ctx):
     rp = ctx["replay"]
     fi = rp.get("failing_input", {}).get("input", {})
     line = fi.get("line")
+    if fi.get("stage") == "pipeline":
+        class _V:
+            n = 0
+            def fail_input(self, what, inp, key=None):
+                self.n += 1; print(what)
+            def fail_tie(self, kind, what, **kw):
+                self.n += 1; print(kind, what)
+        v = _V()
+        m = fi["mesh"]
+        mesh = m if isinstance(m, str) else ("spheres", m["two_spheres_offset"])
+        pipeline_stage(v, "quick", 0, {}, only=[(fi["scenario"], mesh, fi["l_min"], fi["iterations"], fi["threads"])])
+        if v.n:
+            print("VIOLATION property=C03 replay=%s" % ctx.get("replay_path", "-"))
+            return 1
+        print("property holds on this input now")
+        return 0
     if not line:
         print("replay file names no input: %s" % json.dumps(rp.get("no_longer_checks", rp))[:2000])
         return 1
